@@ -117,9 +117,11 @@ def inventory_traces(label: str, cfg: Dict[str, Any], origin: str) -> Tuple[List
 
 
 def pair_traces(label: str, cfg: Dict[str, Any], variants: List[str], steps: int, seed: int, origin: str,
-                notes: Dict[str, int]) -> List[Dict[str, Any]]:
+                notes: Dict[str, int], repeat_check: bool = True) -> List[Dict[str, Any]]:
     base = rc.run_trajectory(cfg, steps, seed)
-    again = rc.run_trajectory(cfg, steps, seed)
+    again = rc.run_trajectory(cfg, steps, seed) if repeat_check else base
+    if repeat_check:
+        notes["repeatability_checks"] = notes.get("repeatability_checks", 0) + 1
     if (base["loose"], base["agents"], base["exc"]) != (again["loose"], again["agents"], again["exc"]):
         # the SAME text does not repeat its trajectory under one seed: determinism is C03's matter, and a difference
         # between variants could not be attributed to the re-serialisation
@@ -626,15 +628,31 @@ def binding_selftest(accepted: List[Dict[str, Any]]) -> Dict[str, int]:
 
 
 def _member_job(job) -> Tuple[List[Dict[str, Any]], Dict[str, int], Dict[str, int]]:
-    label, cfg, st, variants, steps, seed = job
+    label, cfg, st, variants, steps, seed, repeat = job
     notes: Dict[str, int] = {}
     rc.ODDITIES.clear()
     with contextlib.redirect_stdout(io.StringIO()):
         trs, game = inventory_traces(label, cfg, "generated")
         if game is not None:
-            trs = trs + pair_traces(label, cfg, variants, steps, seed, "generated", notes)
+            trs = trs + pair_traces(label, cfg, variants, steps, seed, "generated", notes, repeat_check=repeat)
     for t in trs:
         t["stimulus"]["member"] = st
+    return trs, notes, dict(rc.ODDITIES)
+
+
+def _shipped_pair_job_safe(job):
+    try:
+        return _shipped_pair_job(job)
+    except Exception as ex:  # noqa  (a scenario that does not load has its Raised event from the inventory part)
+        return [], {f"pair_job_failed:{type(ex).__name__}": 1}, {}
+
+
+def _shipped_pair_job(job) -> Tuple[List[Dict[str, Any]], Dict[str, int], Dict[str, int]]:
+    label, cfg, variants, steps, seed, origin = job
+    notes: Dict[str, int] = {}
+    rc.ODDITIES.clear()
+    with contextlib.redirect_stdout(io.StringIO()):
+        trs = pair_traces(label, cfg, variants, steps, seed, origin, notes)
     return trs, notes, dict(rc.ODDITIES)
 
 
@@ -692,6 +710,7 @@ def main(tier: str, seed: int) -> int:
     shipped = shipped_scenarios()
     n_scen = 0
     n_pairs_shipped = 0
+    pair_jobs: List[Any] = []
     stack = contextlib.ExitStack()
     stack.enter_context(contextlib.redirect_stdout(sink))
     for label, cfg in shipped:
@@ -714,7 +733,8 @@ def main(tier: str, seed: int) -> int:
                 continue  # the 20 UC7 episodes share one 41-node base scenario: two of them are stepped
         elif not (small and "#episode" not in label and label.split("/")[-1] in QUICK_PAIR):
             continue
-        traces += pair_traces(label, cfg, variants, steps, seed + 1, "shipped", notes)
+        big = not small
+        pair_jobs.append((label, cfg, variants[:2] if big else variants, steps, seed + 1, "shipped"))
         n_pairs_shipped += 1
     mark("shipped")
     chk.cov["shipped_scenarios_stepped_under_reordering"] = n_pairs_shipped
@@ -725,25 +745,40 @@ def main(tier: str, seed: int) -> int:
     import multiprocessing as mp
     import os
 
-    jobs = [(label, cfg, st, variants, steps, seed + 2) for label, cfg, st in members]
-    workers = max(1, min(8 if thorough else 4, (os.cpu_count() or 2) // 2))
+    # every member under two re-serialisations, every third one under the third as well; one member in eight also
+    # repeats its own trajectory (the ambient entropy is controlled, see rec_config._control_ambient_entropy)
+    jobs = [(label, cfg, st, variants if i % 3 == 0 else variants[:2], steps, seed + 2, i % 8 == 0)
+            for i, (label, cfg, st) in enumerate(members)]
+    probe_list = probes()
+    for label, cfg in probe_list:
+        if thorough:
+            pair_jobs.append((label, cfg, variants[:2], steps, seed + 3, "probe"))
+    workers = max(1, min(12 if thorough else 4, (os.cpu_count() or 2) - 2))
+
+    def merge(result):
+        trs, n_notes, odd = result
+        traces.extend(trs)
+        for k, v in n_notes.items():
+            notes[k] = notes.get(k, 0) + v
+        for k, v in odd.items():
+            rc.ODDITIES[k] = rc.ODDITIES.get(k, 0) + v
+
     with mp.get_context("fork").Pool(workers) as pool:
-        for trs, n_notes, odd in pool.imap(_member_job, jobs, chunksize=4):
-            traces += trs
-            for k, v in n_notes.items():
-                notes[k] = notes.get(k, 0) + v
-            for k, v in odd.items():
-                rc.ODDITIES[k] = rc.ODDITIES.get(k, 0) + v
+        big_first = sorted(pair_jobs, key=lambda j: -_n_nodes(j[1]))
+        pending = pool.imap_unordered(_shipped_pair_job_safe, big_first, chunksize=1)
+        for result in pool.imap(_member_job, jobs, chunksize=4):
+            merge(result)
+        for result in pending:
+            merge(result)
+    traces.sort(key=lambda t: (t["cfg"]["scope"] == "pair", 0))  # stable: inventory traces first
     for label, cfg, st in members:
         chk.add_case({"member": st})
-    for label, cfg in probes():
+    for label, cfg in probe_list:
         trs, game = inventory_traces(label, cfg, "probe")
         for t in trs:
             t["stimulus"]["config_network"] = cfg.get("simulation", {}).get("network", {}).get("node_sets") or cfg.get("defaults")
         traces += _restrict_node_set_traces(cfg, trs, notes)
         chk.add_case({"probe": label})
-        if game is not None and thorough:
-            traces += pair_traces(label, cfg, variants[:2], steps, seed + 3, "probe", notes)
     stack.close()
     mark("generated")
     chk.cov["generated_members_validated"] = len(members)
